@@ -26,7 +26,7 @@ CHECKS = {
   category='model_checking',
   text='Behaviours of spec/KfacRef.tla over {Train, Step, Save, Load} (every step boundary after the first factor update as checkpoint position, with/without factors, compute_inverses on/off) executed by the real GPTNeoXKFACPreconditioner on simdist for (D, M) in {(1,1),(2,1),(1,2),(2,2)} (thorough up to (4,1),(3,2),(2,3)), in-memory and directory mode: every rank\'s saved state holds every layer\'s factors exactly as on its inverse worker / one file per layer; restored factors, second-order data on the inverse worker, every later step equal to the term; Comm.tla invariants at run time + TLC over extracted programs.',
   ref='DESIGN.md 4.6, 5 (C18)',
-  note='Stubs as C11; saving requires existing factors (the code asserts it); directory-mode loads are preceded by a harness barrier (restart).',
+  note='Stubs as C11; saving requires existing factors (the code asserts it); directory-mode loads are preceded by a harness barrier (restart); pipeline stages 1, 2 and 4 (stages are independent sub-models; clipping inactive when P > 1).',
   technique='TLA+ specs (KfacRef.tla, GptDist.tla save/load clauses, Comm.tla) + TLC; checkpoint behaviours executed on a simulated world; recorded collective sequences trace-checked against GptDist.tla'),
  'C14': dict(
   category='model_checking',
